@@ -14,6 +14,7 @@ import (
 	"regexp"
 	"sort"
 	"strings"
+	"sync"
 
 	"golang.org/x/tools/go/packages"
 	"golang.org/x/tools/go/ssa"
@@ -23,14 +24,14 @@ const repoModule = "github.com/HobbyOSs/gosk"
 
 // Clause is one contract clause.
 type Clause struct {
-	Kind  string // requires | ensures | invariant | decreases | assigns | reads | option
-	Label string
-	Loop  int
-	Expr  string
-	Line  int
-	File  string
+	Kind   string // requires | ensures | invariant | decreases | assigns | reads | option
+	Label  string
+	Loop   int
+	Expr   string
+	Line   int
+	File   string
 	Callee string // for calls clauses: full name of the callee
-	Pred  string // name of the synthesized predicate function
+	Pred   string // name of the synthesized predicate function
 	// for loop clauses: the locals passed to the predicate, in order
 	Locals []string
 }
@@ -361,6 +362,7 @@ type World struct {
 	Overlay   map[string][]byte // all overlay contents (instrumented + generated)
 	LoopCount map[string]int    // contract id -> number of loops in the function
 	Findings  *FindingsFile
+	dynCache  sync.Map
 }
 
 func funcDisplayName(fd *ast.FuncDecl) string {
@@ -874,16 +876,16 @@ func (w *World) processRepoPackageOnce(p *packages.Package, imp types.Importer, 
 		}
 		hdr.WriteString("\n")
 		helpers := map[string]string{
-			"old":     "func old[T any](x T) T { return x }\n",
-			"forall":  "func forall(lo, hi int, p func(k int) bool) bool { for k := lo; k < hi; k++ { if !p(k) { return false } }; return true }\n",
-			"exists":  "func exists(lo, hi int, p func(k int) bool) bool { for k := lo; k < hi; k++ { if p(k) { return true } }; return false }\n",
-			"vcIter":  "func vcIter() int { return 0 }\n",
+			"old":          "func old[T any](x T) T { return x }\n",
+			"forall":       "func forall(lo, hi int, p func(k int) bool) bool { for k := lo; k < hi; k++ { if !p(k) { return false } }; return true }\n",
+			"exists":       "func exists(lo, hi int, p func(k int) bool) bool { for k := lo; k < hi; k++ { if p(k) { return true } }; return false }\n",
+			"vcIter":       "func vcIter() int { return 0 }\n",
 			"vcSame":       "func vcSame[T any](a, b T) bool { return fmt.Sprintf(\"%p\", any(a)) == fmt.Sprintf(\"%p\", any(b)) }\n",
 			"vcWriteCount": "func vcWriteCount() int { return 0 }\n",
 			"vcWritten":    "func vcWritten() []byte { return nil }\n",
 			"vcExitCode":   "func vcExitCode() int { return 0 }\n",
 			"vcPrinted":    "func vcPrinted() bool { return false }\n",
-			"implies": "func implies(a, b bool) bool { return !a || b }\n",
+			"implies":      "func implies(a, b bool) bool { return !a || b }\n",
 		}
 		var hn []string
 		for n := range helpers {
